@@ -57,8 +57,13 @@ def generate(rng, tier, index):
             m["sigma_h_max"] = 300.0
     # fully anisotropic (9-component) lossless tensors: only in scenes without absorbing layers - next to a PML the reverse
     # pass is off for full tensors (known finding C03-full-tensor-next-to-pml), which would mask everything else
+    force_full = index % 4 == 3 and not lossy  # every fourth scene: a PML-free full-tensor scene, whatever was drawn
+    if force_full:
+        for f_ in spec["faces"]:
+            if spec["faces"][f_]["kind"] == "pml":
+                spec["faces"][f_] = {"kind": specgen.choice(rng, ["pec", "pmc", "none"])}
     no_pml = not any(f["kind"] == "pml" for f in spec["faces"].values())
-    if no_pml and not lossy and rng.uniform() < 0.5:
+    if no_pml and not lossy and (force_full or rng.uniform() < 0.5):
         m["eps_tier"] = "full"
         if m.get("mu_tier") and rng.uniform() < 0.5:
             m["mu_tier"] = "full"
